@@ -3,6 +3,7 @@ package c19
 import (
 	"context"
 	"fmt"
+	"io"
 	"os"
 	"strings"
 	"testing"
@@ -37,10 +38,14 @@ type call struct {
 	URI    string `json:"uri,omitempty"`
 	Stages string `json:"stages,omitempty"`
 	Bad    string `json:"bad,omitempty"`
-	Err    string `json:"err,omitempty"` // Stats().Error() as the tracer sees it in Finish
+	Err    string `json:"err,omitempty"`  // Stats().Error() as the tracer sees it in Finish
+	Body   string `json:"body,omitempty"` // Request.Body() as the tracer sees it in Finish (buffered mode only)
 }
 
-type recTracer struct{ log []call }
+type recTracer struct {
+	log    []call
+	stream bool // request bodies are streamed: looking at the body in Finish would consume it
+}
 
 var stageOrder = []struct {
 	name string
@@ -58,6 +63,9 @@ func (r *recTracer) Start(ctx context.Context, c *app.RequestContext) context.Co
 
 func (r *recTracer) Finish(ctx context.Context, c *app.RequestContext) {
 	cl := call{Kind: "F", Method: string(c.Request.Header.Method()), URI: string(c.Request.Header.RequestURI())}
+	if !r.stream {
+		cl.Body = string(c.Request.Body())
+	}
 	st := c.GetTraceInfo().Stats()
 	var present []string
 	var last time.Time
@@ -105,7 +113,7 @@ func getRig(k cfgKey) *rig {
 	if r, ok := rigs[k]; ok {
 		return r
 	}
-	r := &rig{tr: &recTracer{}}
+	r := &rig{tr: &recTracer{stream: k.stream}}
 	opts := []config.Option{server.WithStreamBody(k.stream), server.WithTracer(r.tr), server.WithTraceLevel(k.level), server.WithMaxRequestBodySize(20000)}
 	if k.idle0 {
 		opts = append(opts, server.WithIdleTimeout(0))
@@ -118,7 +126,12 @@ func getRig(k cfgKey) *rig {
 			case strings.Contains(uri, "panic"):
 				panic("handler panic for " + uri)
 			case strings.Contains(uri, "hijack"):
-				ctx.Hijack(func(c network.Conn) {})
+				// the hijack handler goes on talking to the peer on the connection: it reads what the peer sends next
+				ctx.Hijack(func(c network.Conn) {
+					buf := make([]byte, len(hijackChatter))
+					c.SetReadTimeout(200 * time.Millisecond) //nolint:errcheck
+					io.ReadFull(c, buf)                      //nolint:errcheck
+				})
 			case strings.Contains(uri, "partial") && ctx.Request.IsBodyStream():
 				buf := make([]byte, 3)
 				ctx.RequestBodyStream().Read(buf) //nolint:errcheck
@@ -130,6 +143,12 @@ func getRig(k cfgKey) *rig {
 	rigs[k] = r
 	return r
 }
+
+var (
+	hijackBody    = strings.Repeat("A", 64)
+	hijackChatter = strings.Repeat("B", 512)
+	hijackCut     int // offset behind the hijack request in the stream built last
+)
 
 const (
 	oOK = iota
@@ -195,8 +214,13 @@ func build(h *History) (stream []byte, targets, methods []string, handled []bool
 			stream = append(stream, fmt.Sprintf("POST %s HTTP/1.1\r\n%sContent-Length: 100\r\n\r\nonly-part", t, host)...)
 			run = false
 		case oHijack:
+			// a request with a body; behind it what the peer says to the hijack handler (delivered by a later
+			// read when the history cuts there)
 			t += "/hijack"
-			stream = append(stream, fmt.Sprintf("GET %s HTTP/1.1\r\n%s\r\n", t, host)...)
+			m = "POST"
+			stream = append(stream, fmt.Sprintf("POST %s HTTP/1.1\r\n%sContent-Length: %d\r\n\r\n%s", t, host, len(hijackBody), hijackBody)...)
+			hijackCut = len(stream)
+			stream = append(stream, hijackChatter...)
 		case oExpect:
 			t += "/expect"
 			m = "POST"
@@ -337,6 +361,9 @@ func Check(h *History) string {
 			if f.URI != targets[i] || f.Method != methods[i] {
 				return fmt.Sprintf("pair #%d: Finish carries %s %q, the request handled in this pair is %s %q: %s", i, f.Method, f.URI, methods[i], targets[i], desc)
 			}
+			if !h.Stream && i < len(h.Outcomes) && h.Outcomes[i] == oHijack && f.Body != hijackBody {
+				return fmt.Sprintf("pair #%d: the Finish of the hijacked request %q carries the body %.40q..., the request's body is %.40q...: %s", i, f.URI, f.Body, hijackBody, desc)
+			}
 		}
 		// the error a Finish carries is that of its own exchange: a request that was served without
 		// any error must not show the error of an earlier exchange that used the same (pooled) context
@@ -371,12 +398,16 @@ func genHistory(t *rapid.T) *History {
 		h.Names = append(h.Names, outcomeNames[o])
 	}
 	h.End = rapid.SampledFrom([]string{"eof", "eof", "timeout", "close"}).Draw(t, "end")
+	hijackCut = 0
 	stream, _, _, _ := build(h)
 	if rapid.Bool().Draw(t, "segmented") {
 		h.Cuts = gen.Cuts(t, len(stream), nil)
 		if len(h.Cuts) > 40 {
 			h.Cuts = h.Cuts[:40]
 		}
+	} else if hijackCut > 0 && rapid.Bool().Draw(t, "peerTalksAfterTheHijackedResponse") {
+		// what the peer says to the hijack handler arrives with a later read
+		h.Cuts = []int{hijackCut}
 	}
 	return h
 }
